@@ -402,14 +402,401 @@ fn err_name(e: &coupe::Error) -> String {
     }
 }
 
-/// Runs the implementation on `c`.  With `reuse`, the SAME algorithm value is first used on another
-/// input (same weights / graph / points, the id array reversed) and then on `c`; what is returned
-/// (ids, metadata, recorded sweeps) belongs to the second call.
+/// SPECIAL VALUES / PLUMBING applied to a case just before the call (the op line keeps the plain
+/// integer data; the tag in front of it says what is done to it).
+///  negzero  != 0: zero `f64` weights (and, with `coord = 1`, zero coordinates) become `-0.0` on a
+///           subset chosen from this seed; the subset has an odd size when the seed is odd, an even
+///           size (>= 2 if possible) when it is even
+///  scale    != 0: every `f64` weight is multiplied by 2^scale (exact: -1073 makes everything
+///           subnormal, -1030 straddles the smallest normal, large values bring the total just below
+///           overflow)
+///  preset   1: non-zero weights = 1e-310 (subnormal) | 2: w[0] = f64::MAX/2 | 3: the first three
+///           weights = 5e307 (finite total 1.5e308) | 4: non-zero weights cycle through the smallest
+///           normal, its predecessor (subnormal) and its successor | 5: w[0] = MAX/2, w[1] =
+///           0.99*MAX/2 (finite total, total x 1.01 overflows) | 6: non-zero weights alternate 1.0 and
+///           0.9999999999999999 (ordinary values whose sums are rounded)
+///  plumb    the type / shape the input is passed as (see `call_case`)
+///  coord    KMeans coordinates: 1 zeros -> -0.0 (see negzero) | 2 all x 2^-1060 (subnormal) |
+///           3 all x 2^480 (|x| up to ~1e150, squares still finite)
+#[derive(Clone, Copy, Debug, Default, PartialEq)]
+struct Tweak {
+    negzero: u64,
+    scale: i32,
+    preset: u8,
+    plumb: u8,
+    coord: u8,
+}
+
+impl Tweak {
+    fn is_none(&self) -> bool {
+        *self == Tweak::default()
+    }
+}
+
+/// Where the call is made from.
+#[derive(Clone, Copy, Debug, PartialEq)]
+enum Ctxk {
+    /// inside `pool.install` of a fresh pool of `threads` workers (the default of every stream)
+    Install,
+    /// on the global rayon pool, from a plain thread
+    Global,
+    /// from inside a rayon task (`join`) of a pool of `threads` workers, next to other work
+    InTask,
+    /// `m` calls at once (`into_par_iter().map(call)`) in ONE pool of `threads` workers; input `j`
+    /// is the case with its id array rotated left by `j`
+    Par(usize),
+}
+
+/// exact 2^e for -1074 <= e <= 1023
+fn pow2(e: i32) -> f64 {
+    if e >= -1022 {
+        f64::from_bits(((e + 1023) as u64) << 52)
+    } else {
+        f64::from_bits(1u64 << (e + 1074))
+    }
+}
+
+fn neg_zero_subset(v: &mut [f64], seed: u64) -> usize {
+    let zeros: Vec<usize> = (0..v.len()).filter(|&i| v[i] == 0.0).collect();
+    if zeros.is_empty() {
+        return 0;
+    }
+    let mut r = Rng::new(seed);
+    let mut pick: Vec<usize> = zeros.iter().copied().filter(|_| r.chance(1, 2)).collect();
+    let odd = seed % 2 == 1;
+    if (pick.len() % 2 == 1) != odd {
+        // flip the membership of the first zero
+        if let Some(p) = pick.iter().position(|&i| i == zeros[0]) {
+            pick.remove(p);
+        } else {
+            pick.push(zeros[0]);
+        }
+    }
+    if pick.is_empty() && !odd && zeros.len() >= 2 {
+        pick = vec![zeros[0], zeros[1]];
+    }
+    for &i in &pick {
+        v[i] = -0.0;
+    }
+    pick.len()
+}
+
+fn tweak_weights(v: &mut [f64], tw: &Tweak) {
+    if tw.scale != 0 {
+        let s = pow2(tw.scale);
+        for x in v.iter_mut() {
+            *x *= s;
+        }
+    }
+    let n = v.len();
+    match tw.preset {
+        1 => v.iter_mut().filter(|x| **x != 0.0).for_each(|x| *x = 1e-310),
+        2 => v[0] = f64::MAX / 2.0,
+        3 => v.iter_mut().take(3.min(n)).for_each(|x| *x = 5e307),
+        4 => {
+            let m = f64::MIN_POSITIVE;
+            let cyc = [m, f64::from_bits(m.to_bits() - 1), f64::from_bits(m.to_bits() + 1)];
+            let mut k = 0;
+            for x in v.iter_mut().filter(|x| **x != 0.0) {
+                *x = cyc[k % 3];
+                k += 1;
+            }
+        }
+        5 => {
+            v[0] = f64::MAX / 2.0;
+            if n > 1 {
+                v[1] = f64::MAX / 2.0 * 0.99;
+            }
+        }
+        6 => {
+            // ordinary magnitudes whose sums round: 1.0 and its predecessor 0.9999999999999999
+            let mut k = 0;
+            for x in v.iter_mut().filter(|x| **x != 0.0) {
+                *x = if k % 2 == 0 { 1.0 } else { f64::from_bits(1.0f64.to_bits() - 1) };
+                k += 1;
+            }
+        }
+        _ => {}
+    }
+    if tw.negzero != 0 {
+        neg_zero_subset(v, tw.negzero);
+    }
+}
+
+type R = (Result<Option<(Vec<usize>, Vec<usize>)>, String>, Vec<usize>);
+
+/// Findings met in THIS process (set by the corpus witnesses, which run first): the random streams
+/// then leave out the inputs that would only trigger the same defect again (a hang costs a whole
+/// watchdog period and three hangs end the run).
+static SEEN_VNBEST_FLOAT_HANG: std::sync::atomic::AtomicBool = std::sync::atomic::AtomicBool::new(false);
+static SEEN_ARCSWAP_UNSIGNED_PANIC: std::sync::atomic::AtomicBool = std::sync::atomic::AtomicBool::new(false);
+
+fn rotated(c: &Case, j: usize) -> Case {
+    let mut ids = c.ids().to_vec();
+    if !ids.is_empty() {
+        let n = ids.len();
+        ids.rotate_left(j % n);
+    }
+    with_ids(c, ids)
+}
+
+/// One call of the implementation in the CURRENT rayon context.  With `reuse`, the SAME algorithm
+/// value is first used on another input (same weights / graph / points, the id array reversed) and
+/// then on `c`; what is returned belongs to the second call.
+///
+/// `tw.plumb` – the same data handed over as another legal input type:
+///  VnBest (`W: IntoIterator`): 1 `Vec` by value | 2 `iter().copied()` | 3 `into_iter().map(..)` |
+///   4 `filter(|_| true)` (inexact size_hint) | 5 `flat_map` | 6 `std::iter::from_fn` | 7 `chain` of
+///   two halves | 12 array `[i64; N]` (N = 4, 8) | 15 `LinkedList`
+///  VnBest, VnFirst, FM, ArcSwap – the weight type: 8 `i32` | 9 `u32` | 10 `u64` | 11 `f32` | 13 `f64`
+///  KL, FM, ArcSwap – the topology: 2 `&view` instead of `view` (the blanket `Topology for &T`)
+fn call_case(c: Case, reuse: bool, tw: Tweak, forget: &(dyn Fn() + Sync)) -> R {
+    // the warm-up input of a reuse case
+    let mut ids_a: Vec<usize> = c.ids().iter().rev().copied().collect();
+    match c {
+        Case::Vn { best, ty, ws, ids, .. } => {
+            let mut ids = ids;
+            let wu: Vec<u64> = ws.iter().map(|&x| x as u64).collect();
+            let mut wf: Vec<f64> = ws.iter().map(|&x| x as f64).collect();
+            tweak_weights(&mut wf, &tw);
+            let small = ws.iter().all(|&w| (0..1 << 24).contains(&w));
+            let w32: Vec<i32> = ws.iter().map(|&x| x as i32).collect();
+            let wu32: Vec<u32> = ws.iter().map(|&x| x as u32).collect();
+            let wf32: Vec<f32> = ws.iter().map(|&x| x as f32).collect();
+            let vb = coupe::VnBest;
+            let vf = coupe::VnFirst;
+            let plumb = if matches!(tw.plumb, 8 | 9 | 11) && !small { 0 } else { tw.plumb };
+            let mut call = |ids: &mut Vec<usize>| {
+                let (mut vb, mut vf) = (vb, vf);
+                match (best, plumb) {
+                    (true, 1) => vb.partition(ids, ws.clone()),
+                    (true, 2) => vb.partition(ids, ws.iter().copied()),
+                    (true, 3) => vb.partition(ids, ws.clone().into_iter().map(|x| x + 0)),
+                    (true, 4) => vb.partition(ids, ws.iter().copied().filter(|_| true)),
+                    (true, 5) => vb.partition(ids, ws.iter().flat_map(|&x| std::iter::once(x))),
+                    (true, 6) => {
+                        let mut i = 0;
+                        let w = &ws;
+                        vb.partition(
+                            ids,
+                            std::iter::from_fn(move || {
+                                let r = w.get(i).copied();
+                                i += 1;
+                                r
+                            }),
+                        )
+                    }
+                    (true, 7) => {
+                        let h = ws.len() / 2;
+                        vb.partition(ids, ws[..h].iter().copied().chain(ws[h..].iter().copied()))
+                    }
+                    (true, 12) if ws.len() == 4 => {
+                        let a: [i64; 4] = ws[..].try_into().unwrap();
+                        vb.partition(ids, a)
+                    }
+                    (true, 12) if ws.len() == 8 => {
+                        let a: [i64; 8] = ws[..].try_into().unwrap();
+                        vb.partition(ids, a)
+                    }
+                    (false, 12) if ws.len() == 4 => {
+                        let a: [i64; 4] = ws[..].try_into().unwrap();
+                        vf.partition(ids, &a[..])
+                    }
+                    (true, 15) => vb.partition(ids, ws.iter().copied().collect::<std::collections::LinkedList<i64>>()),
+                    (true, 8) => vb.partition(ids, w32.clone()),
+                    (false, 8) => vf.partition(ids, &w32[..]),
+                    (true, 9) => vb.partition(ids, wu32.clone()),
+                    (false, 9) => vf.partition(ids, &wu32[..]),
+                    (true, 10) => vb.partition(ids, wu.iter().cloned()),
+                    (false, 10) => vf.partition(ids, &wu[..]),
+                    (true, 11) => vb.partition(ids, wf32.clone()),
+                    (false, 11) => vf.partition(ids, &wf32[..]),
+                    (true, 13) => vb.partition(ids, wf.iter().cloned()),
+                    (false, 13) => vf.partition(ids, &wf[..]),
+                    _ => match ty.as_str() {
+                        "i64" => {
+                            if best {
+                                vb.partition(ids, ws.iter().cloned())
+                            } else {
+                                vf.partition(ids, &ws[..])
+                            }
+                        }
+                        "u64" => {
+                            if best {
+                                vb.partition(ids, wu.iter().cloned())
+                            } else {
+                                vf.partition(ids, &wu[..])
+                            }
+                        }
+                        _ => {
+                            if best {
+                                vb.partition(ids, wf.iter().cloned())
+                            } else {
+                                vf.partition(ids, &wf[..])
+                            }
+                        }
+                    },
+                }
+            };
+            if reuse {
+                let _ = call(&mut ids_a);
+            }
+            let r = call(&mut ids);
+            (r.map(|_| None).map_err(|e| err_name(&e)), ids)
+        }
+        Case::Kl { mp, mf, mb, wlen, ids, rows, .. } => {
+            let mut ids = ids;
+            let mat: CsMat<f64> = csmat(&rows, |w| w as f64);
+            let weights = vec![1.0f64; wlen];
+            let mut kl = coupe::KernighanLin {
+                max_passes: mp,
+                max_flips_per_pass: mf,
+                max_imbalance_per_flip: None,
+                max_bad_move_in_a_row: mb,
+            };
+            if reuse {
+                let _ = kl.partition(&mut ids_a, (mat.view(), &weights[..]));
+            }
+            let r = if tw.plumb == 2 {
+                let v = mat.view();
+                kl.partition(&mut ids, (&v, &weights[..]))
+            } else {
+                kl.partition(&mut ids, (mat.view(), &weights[..]))
+            };
+            (r.map(|_| None).map_err(|e| format!("{:?}", e)), ids)
+        }
+        Case::Fm { f64w, mi, mb, mp, mm, rows, ids, ws, .. } => {
+            let mut ids = ids;
+            let mat: CsMat<i64> = csmat(&rows, |w| w);
+            let mut fm = coupe::FiducciaMattheyses {
+                max_imbalance: mi,
+                max_bad_move_in_a_row: mb,
+                max_passes: mp,
+                max_moves_per_pass: mm,
+            };
+            let mut wf: Vec<f64> = ws.iter().map(|&x| x as f64).collect();
+            tweak_weights(&mut wf, &tw);
+            let small = ws.iter().all(|&w| (0..1 << 24).contains(&w));
+            let plumb = if matches!(tw.plumb, 8 | 9 | 11) && !small { 0 } else { tw.plumb };
+            let mut call = |ids: &mut Vec<usize>| {
+                let v = mat.view();
+                match plumb {
+                    2 if f64w => fm.partition(ids, (&v, &wf[..])),
+                    2 => fm.partition(ids, (&v, &ws[..])),
+                    8 => fm.partition(ids, (v, &ws.iter().map(|&x| x as i32).collect::<Vec<_>>()[..])),
+                    9 => fm.partition(ids, (v, &ws.iter().map(|&x| x as u32).collect::<Vec<_>>()[..])),
+                    10 => fm.partition(ids, (v, &ws.iter().map(|&x| x as u64).collect::<Vec<_>>()[..])),
+                    11 => fm.partition(ids, (v, &ws.iter().map(|&x| x as f32).collect::<Vec<_>>()[..])),
+                    _ if f64w => fm.partition(ids, (v, &wf[..])),
+                    _ => fm.partition(ids, (v, &ws[..])),
+                }
+            };
+            if reuse {
+                let _ = call(&mut ids_a);
+            }
+            let r = call(&mut ids);
+            (
+                r.map(|md| Some((md.moves_per_pass.clone(), md.rewinded_moves_per_pass.clone())))
+                    .map_err(|e| err_name(&e)),
+                ids,
+            )
+        }
+        Case::ArcSwap { f64w, mi, rows, ids, ws, .. } => {
+            let mut ids = ids;
+            let mat: CsMat<i64> = csmat(&rows, |w| w);
+            let mut a = coupe::ArcSwap { max_imbalance: mi };
+            let mut wf: Vec<f64> = ws.iter().map(|&x| x as f64).collect();
+            tweak_weights(&mut wf, &tw);
+            let small = ws.iter().all(|&w| (0..1 << 24).contains(&w));
+            let plumb = if matches!(tw.plumb, 8 | 9 | 11) && !small { 0 } else { tw.plumb };
+            let mut call = |ids: &mut Vec<usize>| {
+                let v = mat.view();
+                match plumb {
+                    2 if f64w => a.partition(ids, (&v, &wf[..])).map(|_| ()),
+                    2 => a.partition(ids, (&v, &ws[..])).map(|_| ()),
+                    8 => a.partition(ids, (v, &ws.iter().map(|&x| x as i32).collect::<Vec<_>>()[..])).map(|_| ()),
+                    9 => a.partition(ids, (v, &ws.iter().map(|&x| x as u32).collect::<Vec<_>>()[..])).map(|_| ()),
+                    10 => a.partition(ids, (v, &ws.iter().map(|&x| x as u64).collect::<Vec<_>>()[..])).map(|_| ()),
+                    11 => a.partition(ids, (v, &ws.iter().map(|&x| x as f32).collect::<Vec<_>>()[..])).map(|_| ()),
+                    _ if f64w => a.partition(ids, (v, &wf[..])).map(|_| ()),
+                    _ => a.partition(ids, (v, &ws[..])).map(|_| ()),
+                }
+            };
+            if reuse {
+                let _ = call(&mut ids_a);
+            }
+            let r = call(&mut ids);
+            (r.map(|_| None).map_err(|e| err_name(&e)), ids)
+        }
+        Case::KMeans { dim, tol, delta, max_iter, max_balance_iter, erode, mbr, ids, coords, ws, .. } => {
+            let mut ids = ids;
+            let mut w: Vec<f64> = ws.iter().map(|&x| x as f64 / 4.0).collect();
+            tweak_weights(&mut w, &tw);
+            let mut km = coupe::KMeans {
+                imbalance_tol: tol,
+                delta_threshold: delta,
+                max_iter,
+                max_balance_iter,
+                erode,
+                hilbert: true,
+                mbr_early_break: mbr,
+            };
+            let mut xs: Vec<f64> = coords.iter().map(|&t| t as f64 / 16.0).collect();
+            match tw.coord {
+                1 => {
+                    neg_zero_subset(&mut xs, tw.negzero | 2);
+                }
+                2 => xs.iter_mut().for_each(|x| *x *= pow2(-1060)),
+                3 => xs.iter_mut().for_each(|x| *x *= pow2(480)),
+                _ => {}
+            }
+            if dim == 2 {
+                let pts: Vec<coupe::Point2D> =
+                    (0..ids.len()).map(|i| coupe::Point2D::new(xs[2 * i], xs[2 * i + 1])).collect();
+                if reuse {
+                    km.partition(&mut ids_a, (&pts[..], &w[..])).unwrap();
+                    forget();
+                }
+                km.partition(&mut ids, (&pts[..], &w[..])).unwrap();
+            } else {
+                let pts: Vec<coupe::Point3D> = (0..ids.len())
+                    .map(|i| coupe::Point3D::new(xs[3 * i], xs[3 * i + 1], xs[3 * i + 2]))
+                    .collect();
+                if reuse {
+                    km.partition(&mut ids_a, (&pts[..], &w[..])).unwrap();
+                    forget();
+                }
+                km.partition(&mut ids, (&pts[..], &w[..])).unwrap();
+            }
+            (Ok(None), ids)
+        }
+    }
+}
+
+fn to_ran(r: Caught<R>) -> Ran {
+    match r {
+        Caught::Ok((Ok(md), ids)) => Ran::Ok(ids, md),
+        Caught::Ok((Err(e), _)) => Ran::Err(e),
+        // assert messages may span several lines; the protocol is line based
+        Caught::Panic(m) => Ran::Panic(m.split_whitespace().collect::<Vec<_>>().join(" ")),
+        Caught::Hang => Ran::Hang,
+    }
+}
+
 fn run_impl(c: &Case, reuse: bool) -> (Ran, Sweeps) {
+    let (ran, sweeps, _) = run_impl_x(c, reuse, Tweak::default(), Ctxk::Install);
+    (ran, sweeps)
+}
+
+/// Runs the implementation under the watchdog.  Returns the outcome of the call (of call 0 for
+/// `Ctxk::Par`), the k-means sweeps seen by the hook (not recorded for `Par`: the hook state is
+/// process global and concurrent calls would interleave) and, for `Par`, the outcome of every call.
+fn run_impl_x(c: &Case, reuse: bool, tw: Tweak, ck: Ctxk) -> (Ran, Sweeps, Vec<Ran>) {
+    use coupe::rayon::prelude::*;
     let c = c.clone();
     let rec: Arc<Mutex<Sweeps>> = Arc::new(Mutex::new(Vec::new()));
-    let is_kmeans = matches!(c, Case::KMeans { .. });
-    if is_kmeans {
+    let observe = matches!(c, Case::KMeans { .. }) && !matches!(ck, Ctxk::Par(_));
+    if observe {
         let rec2 = rec.clone();
         coupe::verif_hooks::set_kmeans_observer(Some(Box::new(move |a: &[usize], cids: &[usize]| {
             if let Ok(mut g) = rec2.lock() {
@@ -420,10 +807,11 @@ fn run_impl(c: &Case, reuse: bool) -> (Ran, Sweeps) {
         })));
     }
     let rec3 = rec.clone();
-    type R = (Result<Option<(Vec<usize>, Vec<usize>)>, String>, Vec<usize>);
     // `C02_WATCHDOG` only serves to tell a slow run from a hang when a finding is examined by hand
-    let secs = std::env::var("C02_WATCHDOG").ok().and_then(|v| v.parse().ok()).unwrap_or(60u64);
-    let res: Caught<R> = catch_timeout(secs, move || {
+    // small inputs (which take milliseconds) get the property's original 20 s, large ones 60 s
+    let dflt = if c.ids().len() <= 1000 { 20u64 } else { 60 };
+    let secs = std::env::var("C02_WATCHDOG").ok().and_then(|v| v.parse().ok()).unwrap_or(dflt);
+    let res: Caught<(R, Vec<R>)> = catch_timeout(secs, move || {
         let threads = match &c {
             Case::Vn { threads, .. }
             | Case::Kl { threads, .. }
@@ -431,163 +819,45 @@ fn run_impl(c: &Case, reuse: bool) -> (Ran, Sweeps) {
             | Case::ArcSwap { threads, .. }
             | Case::KMeans { threads, .. } => *threads,
         };
-        let p = pool(threads);
-        p.install(move || -> R {
-            // the warm-up input of a reuse case
-            let mut ids_a: Vec<usize> = c.ids().iter().rev().copied().collect();
-            let forget = || {
-                if let Ok(mut g) = rec3.lock() {
-                    g.clear();
-                }
-            };
-            match c {
-                Case::Vn { best, ty, ws, ids, .. } => {
-                    let mut ids = ids;
-                    let wu: Vec<u64> = ws.iter().map(|&x| x as u64).collect();
-                    let wf: Vec<f64> = ws.iter().map(|&x| x as f64).collect();
-                    let vb = coupe::VnBest;
-                    let vf = coupe::VnFirst;
-                    let mut call = |ids: &mut Vec<usize>| {
-                        let (mut vb, mut vf) = (vb, vf);
-                        match ty.as_str() {
-                            "i64" => {
-                                if best {
-                                    vb.partition(ids, ws.iter().cloned())
-                                } else {
-                                    vf.partition(ids, &ws[..])
-                                }
-                            }
-                            "u64" => {
-                                if best {
-                                    vb.partition(ids, wu.iter().cloned())
-                                } else {
-                                    vf.partition(ids, &wu[..])
-                                }
-                            }
-                            _ => {
-                                if best {
-                                    vb.partition(ids, wf.iter().cloned())
-                                } else {
-                                    vf.partition(ids, &wf[..])
-                                }
-                            }
-                        }
-                    };
-                    if reuse {
-                        let _ = call(&mut ids_a);
-                    }
-                    let r = call(&mut ids);
-                    (r.map(|_| None).map_err(|e| err_name(&e)), ids)
-                }
-                Case::Kl { mp, mf, mb, wlen, ids, rows, .. } => {
-                    let mut ids = ids;
-                    let mat: CsMat<f64> = csmat(&rows, |w| w as f64);
-                    let weights = vec![1.0f64; wlen];
-                    let mut kl = coupe::KernighanLin {
-                        max_passes: mp,
-                        max_flips_per_pass: mf,
-                        max_imbalance_per_flip: None,
-                        max_bad_move_in_a_row: mb,
-                    };
-                    if reuse {
-                        let _ = kl.partition(&mut ids_a, (mat.view(), &weights[..]));
-                    }
-                    let r = kl.partition(&mut ids, (mat.view(), &weights[..]));
-                    (r.map(|_| None).map_err(|e| format!("{:?}", e)), ids)
-                }
-                Case::Fm { f64w, mi, mb, mp, mm, rows, ids, ws, .. } => {
-                    let mut ids = ids;
-                    let mat: CsMat<i64> = csmat(&rows, |w| w);
-                    let mut fm = coupe::FiducciaMattheyses {
-                        max_imbalance: mi,
-                        max_bad_move_in_a_row: mb,
-                        max_passes: mp,
-                        max_moves_per_pass: mm,
-                    };
-                    let wf: Vec<f64> = ws.iter().map(|&x| x as f64).collect();
-                    let mut call = |ids: &mut Vec<usize>| {
-                        if f64w {
-                            fm.partition(ids, (mat.view(), &wf[..]))
-                        } else {
-                            fm.partition(ids, (mat.view(), &ws[..]))
-                        }
-                    };
-                    if reuse {
-                        let _ = call(&mut ids_a);
-                    }
-                    let r = call(&mut ids);
-                    (
-                        r.map(|md| Some((md.moves_per_pass.clone(), md.rewinded_moves_per_pass.clone())))
-                            .map_err(|e| err_name(&e)),
-                        ids,
-                    )
-                }
-                Case::ArcSwap { f64w, mi, rows, ids, ws, .. } => {
-                    let mut ids = ids;
-                    let mat: CsMat<i64> = csmat(&rows, |w| w);
-                    let mut a = coupe::ArcSwap { max_imbalance: mi };
-                    let wf: Vec<f64> = ws.iter().map(|&x| x as f64).collect();
-                    let mut call = |ids: &mut Vec<usize>| {
-                        if f64w {
-                            a.partition(ids, (mat.view(), &wf[..])).map(|_| ())
-                        } else {
-                            a.partition(ids, (mat.view(), &ws[..])).map(|_| ())
-                        }
-                    };
-                    if reuse {
-                        let _ = call(&mut ids_a);
-                    }
-                    let r = call(&mut ids);
-                    (r.map(|_| None).map_err(|e| err_name(&e)), ids)
-                }
-                Case::KMeans { dim, tol, delta, max_iter, max_balance_iter, erode, mbr, ids, coords, ws, .. } => {
-                    let mut ids = ids;
-                    let w: Vec<f64> = ws.iter().map(|&x| x as f64 / 4.0).collect();
-                    let mut km = coupe::KMeans {
-                        imbalance_tol: tol,
-                        delta_threshold: delta,
-                        max_iter,
-                        max_balance_iter,
-                        erode,
-                        hilbert: true,
-                        mbr_early_break: mbr,
-                    };
-                    let x = |k: usize| coords[k] as f64 / 16.0;
-                    if dim == 2 {
-                        let pts: Vec<coupe::Point2D> =
-                            (0..ids.len()).map(|i| coupe::Point2D::new(x(2 * i), x(2 * i + 1))).collect();
-                        if reuse {
-                            km.partition(&mut ids_a, (&pts[..], &w[..])).unwrap();
-                            forget();
-                        }
-                        km.partition(&mut ids, (&pts[..], &w[..])).unwrap();
-                    } else {
-                        let pts: Vec<coupe::Point3D> = (0..ids.len())
-                            .map(|i| coupe::Point3D::new(x(3 * i), x(3 * i + 1), x(3 * i + 2)))
-                            .collect();
-                        if reuse {
-                            km.partition(&mut ids_a, (&pts[..], &w[..])).unwrap();
-                            forget();
-                        }
-                        km.partition(&mut ids, (&pts[..], &w[..])).unwrap();
-                    }
-                    (Ok(None), ids)
-                }
+        let forget = move || {
+            if let Ok(mut g) = rec3.lock() {
+                g.clear();
             }
-        })
+        };
+        match ck {
+            Ctxk::Install => {
+                let p = pool(threads);
+                (p.install(move || call_case(c, reuse, tw, &forget)), vec![])
+            }
+            Ctxk::Global => (call_case(c, reuse, tw, &forget), vec![]),
+            Ctxk::InTask => {
+                let p = pool(threads);
+                p.install(move || {
+                    let (r, _) = coupe::rayon::join(
+                        || call_case(c, reuse, tw, &forget),
+                        || (0..200_000u64).into_par_iter().map(|x| x ^ 1).sum::<u64>(),
+                    );
+                    (r, vec![])
+                })
+            }
+            Ctxk::Par(m) => {
+                let p = pool(threads);
+                let inputs: Vec<Case> = (0..m).map(|j| rotated(&c, j)).collect();
+                let rs: Vec<R> =
+                    p.install(move || inputs.into_par_iter().map(|ci| call_case(ci, false, tw, &|| {})).collect());
+                (rs[0].clone(), rs)
+            }
+        }
     });
-    if is_kmeans {
+    if observe {
         coupe::verif_hooks::set_kmeans_observer(None);
     }
     let sweeps = rec.lock().map(|mut g| std::mem::take(&mut *g)).unwrap_or_default();
-    let ran = match res {
-        Caught::Ok((Ok(md), ids)) => Ran::Ok(ids, md),
-        Caught::Ok((Err(e), _)) => Ran::Err(e),
-        // assert messages may span several lines; the protocol is line based
-        Caught::Panic(m) => Ran::Panic(m.split_whitespace().collect::<Vec<_>>().join(" ")),
-        Caught::Hang => Ran::Hang,
-    };
-    (ran, sweeps)
+    match res {
+        Caught::Ok((r, all)) => (to_ran(Caught::Ok(r)), sweeps, all.into_iter().map(|r| to_ran(Caught::Ok(r))).collect()),
+        Caught::Panic(m) => (to_ran(Caught::Panic(m)), sweeps, vec![]),
+        Caught::Hang => (Ran::Hang, sweeps, vec![]),
+    }
 }
 
 /// The recorded sweeps as protocol tokens (see the module comment).
@@ -710,15 +980,297 @@ pub fn run_op(ctx: &mut Ctx, op: &str) {
         run_large(ctx, op);
         return;
     }
-    let (reuse, rest) = match op.strip_prefix("reuse ") {
-        Some(r) => (true, r),
-        None => (false, op),
-    };
-    let Some(c) = parse_op(rest) else {
+    if op.starts_with("mix ") {
+        run_mix(ctx, op);
+        return;
+    }
+    let bad = |ctx: &mut Ctx| {
         ctx.record(op.to_string(), "bad-op".into(), false);
+    };
+    let t: Vec<&str> = op.splitn(8, ' ').collect();
+    match t[0] {
+        // `sp <m|o> <negzero> <scale> <preset> <plumb> <coord> <std op>` (the flag is recomputed)
+        "sp" if t.len() == 8 => {
+            let tw = (|| {
+                Some(Tweak {
+                    negzero: t[2].parse().ok()?,
+                    scale: t[3].parse().ok()?,
+                    preset: t[4].parse().ok()?,
+                    plumb: t[5].parse().ok()?,
+                    coord: t[6].parse().ok()?,
+                })
+            })();
+            match (tw, parse_op(t[7])) {
+                (Some(tw), Some(c)) if (-1074..=1000).contains(&tw.scale) => run_special(ctx, &c, tw),
+                _ => bad(ctx),
+            }
+        }
+        // `ctx <m|o> <global|intask|par> <m> <std op>`
+        "ctx" => {
+            let t: Vec<&str> = op.splitn(5, ' ').collect();
+            if t.len() != 5 {
+                return bad(ctx);
+            }
+            let m: Option<usize> = t[3].parse().ok();
+            let ck = match (t[2], m) {
+                ("global", Some(_)) => Some(Ctxk::Global),
+                ("intask", Some(_)) => Some(Ctxk::InTask),
+                ("par", Some(m)) if (1..=64).contains(&m) => Some(Ctxk::Par(m)),
+                _ => None,
+            };
+            match (ck, parse_op(t[4])) {
+                (Some(ck), Some(c)) => run_context(ctx, &c, ck),
+                _ => bad(ctx),
+            }
+        }
+        // `tl <std op>`: through `coupe_tools::parse_algorithm`
+        "tl" => match parse_op(&op[3..]) {
+            Some(c) => run_tools(ctx, &c),
+            None => bad(ctx),
+        },
+        _ => {
+            let (reuse, rest) = match op.strip_prefix("reuse ") {
+                Some(r) => (true, r),
+                None => (false, op),
+            };
+            let Some(c) = parse_op(rest) else {
+                return bad(ctx);
+            };
+            run_case_m(ctx, &c, None, reuse);
+        }
+    }
+}
+
+/// Is a single run of the case (in its own pool) a function of the input alone?  FM iterates over
+/// `HashSet`s with per-instance random hashers; ArcSwap with several workers is free-running; the
+/// parallel `f64` sums of KMeans depend on the split tree unless they are exact.
+fn single_run_deterministic(c: &Case) -> bool {
+    match c {
+        Case::Vn { .. } | Case::Kl { .. } => true,
+        Case::Fm { .. } => false,
+        Case::ArcSwap { threads, .. } => *threads == 1,
+        Case::KMeans { threads, .. } => *threads == 1 || kmeans_exact_sums(c),
+    }
+}
+
+/// KMeans inputs on which every parallel floating-point sum is exact (so the result does not depend
+/// on how rayon splits the work): a power-of-two number of points (the centroid of the inertia
+/// matrix is then dyadic), small dyadic coordinates and weights, no erosion (`into_group_map`
+/// iterates a `HashMap`).
+fn kmeans_exact_sums(c: &Case) -> bool {
+    match c {
+        Case::KMeans { ids, coords, ws, erode, .. } => {
+            ids.len().is_power_of_two()
+                && !*erode
+                && coords.iter().all(|x| x.abs() <= 1 << 14)
+                && ws.iter().all(|x| (0..=1 << 10).contains(x))
+        }
+        _ => false,
+    }
+}
+
+fn fm_cap_scale_exact(c: &Case) -> bool {
+    matches!(c, Case::Fm { mi, .. } if *mi == None || *mi == Some(0.0) || *mi == Some(1.0))
+}
+
+/// SPECIAL VALUES / PLUMBING case: the tweaked run gets the full oracle; where the plain run is a
+/// function of the input it must give exactly the same ids (`negzero-dependent@`, `scale-dependent@`,
+/// `input-type-dependent@`); the Lean model (which knows neither zero signs nor input types nor, for
+/// the abstract KMeans model, any number at all) predicts the plain op where that is meaningful.
+fn run_special(ctx: &mut Ctx, c: &Case, tw: Tweak) {
+    use std::sync::atomic::Ordering::SeqCst;
+    if matches!(c, Case::Vn { best: true, .. }) && tw.preset >= 2 && SEEN_VNBEST_FLOAT_HANG.load(SeqCst) {
+        // VnBest on f64 weights whose sums are rounded: already reported in this run
+        ctx.count("special:not-run:vnbest-rounded-sums(hang already reported)");
+        return;
+    }
+    if matches!(c, Case::ArcSwap { .. }) && matches!(tw.plumb, 9 | 10) && SEEN_ARCSWAP_UNSIGNED_PANIC.load(SeqCst) {
+        ctx.count("plumbing:not-run:arcswap-unsigned(panic already reported)");
+        return;
+    }
+    let det = single_run_deterministic(c);
+    let is_km = matches!(c, Case::KMeans { .. });
+    let is_vn = matches!(c, Case::Vn { .. });
+    let (class, cmp): (&str, Option<&'static str>) = if tw.preset != 0 {
+        ("extreme-preset", None)
+    } else if tw.coord >= 2 {
+        (if tw.coord == 2 { "subnormal-coordinates" } else { "huge-coordinates" }, None)
+    } else if tw.scale != 0 {
+        let exact = is_vn || matches!(c, Case::ArcSwap { mi: None, .. });
+        (
+            if tw.scale < -1040 {
+                "scale:subnormal"
+            } else if tw.scale < 0 {
+                "scale:around-smallest-normal"
+            } else {
+                "scale:near-overflow"
+            },
+            if exact && det { Some("scale-dependent") } else { None },
+        )
+    } else if tw.negzero != 0 {
+        (if tw.coord == 1 { "negzero:coordinates+weights" } else { "negzero:weights" }, if det { Some("negzero-dependent") } else { None })
+    } else if tw.plumb != 0 {
+        ("plumbing", if det { Some("input-type-dependent") } else { None })
+    } else {
+        ("none", None)
+    };
+    if tw.plumb != 0 {
+        ctx.count(&format!("plumbing:{}:{}", c.algo(), tw.plumb));
+    } else {
+        ctx.count(&format!("special:{}:{}", class, c.algo()));
+    }
+    if tw.negzero != 0 {
+        ctx.count(if tw.negzero % 2 == 1 { "special:negzero:odd-count" } else { "special:negzero:even-count" });
+    }
+    let model_ok = is_km
+        || (tw.preset == 0 && (tw.scale == 0 || is_vn || (fm_cap_scale_exact(c) && matches!(c, Case::Fm { .. }))));
+    ctx.count(if cmp.is_some() { "special:compared-with-plain-run" } else { "special:oracle-only-or-model" });
+    let prefix = format!(
+        "sp {} {} {} {} {} {} ",
+        if model_ok { "m" } else { "o" },
+        tw.negzero,
+        tw.scale,
+        tw.preset,
+        tw.plumb,
+        tw.coord
+    );
+    run_case_x(ctx, c, Mode { prefix, tw, cmp_base: cmp, ..Mode::default() });
+}
+
+/// CONTEXT case: see `Ctxk`.
+fn run_context(ctx: &mut Ctx, c: &Case, ck: Ctxk) {
+    let (kind, m) = match ck {
+        Ctxk::Install => ("install", 1),
+        Ctxk::Global => ("global", 1),
+        Ctxk::InTask => ("intask", 1),
+        Ctxk::Par(m) => ("par", m),
+    };
+    let threads = match c {
+        Case::Vn { threads, .. }
+        | Case::Kl { threads, .. }
+        | Case::Fm { threads, .. }
+        | Case::ArcSwap { threads, .. }
+        | Case::KMeans { threads, .. } => *threads,
+    };
+    // is the result of a call in THIS context a function of the input alone?
+    let deterministic = match c {
+        Case::Vn { .. } | Case::Kl { .. } => true,
+        Case::Fm { .. } => false,
+        Case::ArcSwap { .. } => ck == Ctxk::InTask && threads == 1,
+        Case::KMeans { .. } => kmeans_exact_sums(c) || (ck == Ctxk::InTask && threads == 1),
+    };
+    let model_ok = match c {
+        Case::KMeans { .. } => !matches!(ck, Ctxk::Par(_)), // no trace for concurrent calls
+        Case::ArcSwap { .. } => ck == Ctxk::InTask, // the driver reads the pool size off the op
+        _ => true,
+    };
+    ctx.count(&format!(
+        "context:{}:{}{}",
+        kind,
+        c.algo(),
+        if let Ctxk::Par(_) = ck { format!(":pool{}", threads) } else { String::new() }
+    ));
+    ctx.count(if deterministic { "context:compared-with-sequential-run" } else { "context:oracle-only(nondeterministic)" });
+    let prefix = format!("ctx {} {} {} ", if model_ok { "m" } else { "o" }, kind, m);
+    run_case_x(ctx, c, Mode { prefix, ck, deterministic, ..Mode::default() });
+}
+
+/// TOOLS case: VnBest / VnFirst through `coupe_tools::parse_algorithm("vn-best" | "vn-first")` and a
+/// `Problem` without mesh (the runner converts `weight::Array` rows into a fresh `Vec`); the ids must
+/// equal those of the library call.  (The other four improvers need a mesh for their points /
+/// adjacency in `coupe_tools::Problem`; not reached from here.)
+fn run_tools(ctx: &mut Ctx, c: &Case) {
+    let Case::Vn { best, ty, threads, ws, ids } = c.clone() else {
+        ctx.record(format!("tl {}", format_op(c)), "bad-op".into(), false);
         return;
     };
-    run_case_m(ctx, &c, None, reuse);
+    ctx.count(&format!("plumbing:tools:{}:{}", c.algo(), ty));
+    let name = if best { "vn-best" } else { "vn-first" };
+    let ws2 = ws.clone();
+    let ty2 = ty.clone();
+    let ids2 = ids.clone();
+    let res: Caught<Result<Vec<usize>, String>> = catch_timeout(60, move || {
+        let p = pool(threads);
+        p.install(move || {
+            let mut algo = coupe_tools::parse_algorithm::<2>(name).map_err(|e| format!("parse_algorithm: {}", e))?;
+            let arr = if ty2 == "f64" {
+                mesh_io::weight::Array::Floats(ws2.iter().map(|&w| vec![w as f64]).collect())
+            } else {
+                mesh_io::weight::Array::Integers(ws2.iter().map(|&w| vec![w]).collect())
+            };
+            let problem = coupe_tools::Problem::<2>::without_mesh(arr);
+            let mut runner = algo.to_runner(&problem);
+            let mut ids = ids2;
+            runner(&mut ids).map_err(|e| format!("{}", e))?;
+            Ok(ids)
+        })
+    });
+    let (lib, _) = run_impl(c, false);
+    let mut verdict: Option<(String, String)> = None;
+    let out = match (&res, &lib) {
+        (Caught::Ok(Ok(t)), Ran::Ok(l, _)) => {
+            if t != l {
+                verdict = Some((
+                    format!("tools-dependent@{}", c.algo()),
+                    format!("through coupe_tools: {}, library call: {}", show(t), show(l)),
+                ));
+            }
+            format!("ok {}", join(t)).trim_end().to_string()
+        }
+        (Caught::Ok(Ok(t)), _) => {
+            verdict = Some((format!("tools-dependent@{}", c.algo()), "library call did not return Ok".into()));
+            format!("ok {}", join(t)).trim_end().to_string()
+        }
+        (Caught::Ok(Err(e)), _) => {
+            verdict = Some((format!("unexpected-error@{}", c.algo()), format!("coupe_tools runner: {}", e)));
+            format!("err {}", e.split_whitespace().collect::<Vec<_>>().join("_"))
+        }
+        (Caught::Panic(m), _) => {
+            verdict = Some((panic_sig(m), format!("{} [tools {}]", m, c.algo())));
+            format!("panic {}", m.split_whitespace().collect::<Vec<_>>().join(" "))
+        }
+        (Caught::Hang, _) => {
+            verdict = Some((format!("hang@{}", c.algo()), "watchdog (60 s), tools runner".into()));
+            "hang".into()
+        }
+    };
+    if contract(c).is_err() {
+        verdict = None;
+    }
+    let idx = ctx.record(format!("tl {}", format_op(c)), out, contract(c).is_ok());
+    if let Some((sig, what)) = verdict {
+        ctx.fail(idx, &sig, what);
+    }
+}
+
+/// How a case is run and recorded (default: plain).
+#[derive(Clone)]
+struct Mode {
+    /// the op text to record instead of the expanded op (large recipe cases; digest output)
+    label: Option<String>,
+    /// recorded in front of the op (`sp …`, `ctx …`)
+    prefix: String,
+    reuse: bool,
+    tw: Tweak,
+    ck: Ctxk,
+    /// the result must equal the plain run's: signature class of a difference
+    cmp_base: Option<&'static str>,
+    /// `ck != Install`: the result of each call must equal a sequential run's
+    deterministic: bool,
+}
+
+impl Default for Mode {
+    fn default() -> Self {
+        Mode {
+            label: None,
+            prefix: String::new(),
+            reuse: false,
+            tw: Tweak::default(),
+            ck: Ctxk::Install,
+            cmp_base: None,
+            deterministic: false,
+        }
+    }
 }
 
 /// Runs one case; returns the implementation's id array when it returned `Ok`.
@@ -747,9 +1299,14 @@ fn fnv(ids: &[usize]) -> u64 {
 /// output is then a digest).  `reuse`: see `run_impl`; the result must not depend on the history of
 /// the algorithm value (compared with a fresh value where the algorithm is deterministic).
 fn run_case_m(ctx: &mut Ctx, c: &Case, label: Option<String>, reuse: bool) -> Option<Vec<usize>> {
+    run_case_x(ctx, c, Mode { label, reuse, ..Mode::default() })
+}
+
+fn run_case_x(ctx: &mut Ctx, c: &Case, mode: Mode) -> Option<Vec<usize>> {
     if ctx.hang_limit_reached() {
         return None;
     }
+    let Mode { label, prefix, reuse, tw, ck, cmp_base, deterministic } = mode;
     let c = c.clone();
     let algo = c.algo();
     let mut large = label.is_some();
@@ -765,7 +1322,16 @@ fn run_case_m(ctx: &mut Ctx, c: &Case, label: Option<String>, reuse: bool) -> Op
         }
     }
     let uses = |i: usize| i < in_input.len() && in_input[i];
-    let (ran, sweeps) = run_impl(&c, reuse);
+    let (ran, sweeps, all) = run_impl_x(&c, reuse, tw, ck);
+    match (&c, &ran) {
+        (Case::Vn { best: true, .. }, Ran::Hang) => {
+            SEEN_VNBEST_FLOAT_HANG.store(true, std::sync::atomic::Ordering::SeqCst);
+        }
+        (Case::ArcSwap { .. }, Ran::Panic(m)) if m.contains("subtract with overflow") && matches!(tw.plumb, 9 | 10) => {
+            SEEN_ARCSWAP_UNSIGNED_PANIC.store(true, std::sync::atomic::Ordering::SeqCst);
+        }
+        _ => {}
+    }
     if reuse {
         ctx.count(&format!("reuse:{}", algo));
     }
@@ -792,7 +1358,7 @@ fn run_case_m(ctx: &mut Ctx, c: &Case, label: Option<String>, reuse: bool) -> Op
     }
     let base = match (&label, large) {
         (Some(l), true) => l.clone(),
-        _ => format!("{}{}", if reuse { "reuse " } else { "" }, format_op(&c)),
+        _ => format!("{}{}{}", prefix, if reuse { "reuse " } else { "" }, format_op(&c)),
     };
     let was_large = label.is_some();
     let mut verdict: Option<(String, String)> = None;
@@ -850,7 +1416,7 @@ fn run_case_m(ctx: &mut Ctx, c: &Case, label: Option<String>, reuse: bool) -> Op
                 // what the hook saw must explain the result: ids only ever drawn from the input's ids,
                 // and the array returned is the array after the last sweep
                 let last = sweeps.last().map(|(a, _)| a.as_slice()).unwrap_or(&ids0[..]);
-                if last != &ids[..] && verdict.is_none() {
+                if last != &ids[..] && verdict.is_none() && !matches!(ck, Ctxk::Par(_)) {
                     verdict = Some((
                         "kmeans-final-differs-from-last-sweep".into(),
                         format!("last sweep {}, returned {}", show(last), show(ids)),
@@ -908,6 +1474,87 @@ fn run_case_m(ctx: &mut Ctx, c: &Case, label: Option<String>, reuse: bool) -> Op
                     ctx.count("reuse:oracle-only(nondeterministic)");
                 }
             }
+            if let (Some(class), true) = (cmp_base, verdict.is_none()) {
+                // special values / plumbing: exactly the ids of the plain run
+                match run_impl(&c, false).0 {
+                    Ran::Ok(plain, _) => {
+                        if &plain != ids {
+                            let p = plain.iter().zip(ids.iter()).position(|(a, b)| a != b).unwrap_or(0);
+                            verdict = Some((
+                                format!("{}@{}", class, algo),
+                                format!(
+                                    "{:?} gives {} but the plain run gives {} (first difference at element {})",
+                                    tw,
+                                    show(ids),
+                                    show(&plain),
+                                    p
+                                ),
+                            ));
+                        }
+                    }
+                    _ => {
+                        verdict = Some((format!("{}@{}", class, algo), "the plain run did not return Ok".into()));
+                    }
+                }
+            }
+            if ck != Ctxk::Install && verdict.is_none() {
+                // calling context: every call gets the oracle; where the algorithm is deterministic
+                // its result must be the one of a sequential run in a pool of its own
+                let calls: Vec<(Case, &Ran)> = if all.is_empty() {
+                    vec![(c.clone(), &ran)]
+                } else {
+                    all.iter().enumerate().map(|(j, r)| (rotated(&c, j), r)).collect()
+                };
+                for (j, (cj, rj)) in calls.iter().enumerate() {
+                    if verdict.is_some() {
+                        break;
+                    }
+                    match rj {
+                        Ran::Ok(idsj, _) => {
+                            if idsj.len() != n || idsj.iter().any(|&i| i > max0) {
+                                verdict = Some((
+                                    format!("id-out-of-range@{}", algo),
+                                    format!("concurrent call {}: {} (largest input id {})", j, show(idsj), max0),
+                                ));
+                            } else if matches!(c, Case::Fm { .. } | Case::Kl { .. }) && idsj.iter().any(|&i| !uses(i)) {
+                                verdict = Some((
+                                    format!("id-out-of-range@{}", algo),
+                                    format!("concurrent call {}: a label the input does not use: {}", j, show(idsj)),
+                                ));
+                            } else if deterministic {
+                                match run_impl(cj, false).0 {
+                                    Ran::Ok(seq, _) if &seq == idsj => {}
+                                    Ran::Ok(seq, _) => {
+                                        verdict = Some((
+                                            format!("context-dependent@{}", algo),
+                                            format!(
+                                                "call {} in context {:?} gives {} but alone in its own pool {}",
+                                                j,
+                                                ck,
+                                                show(idsj),
+                                                show(&seq)
+                                            ),
+                                        ));
+                                    }
+                                    _ => {
+                                        verdict = Some((
+                                            format!("context-dependent@{}", algo),
+                                            format!("call {}: the sequential run did not return Ok", j),
+                                        ));
+                                    }
+                                }
+                            }
+                        }
+                        Ran::Err(e) => {
+                            verdict = Some((format!("unexpected-error@{}", algo), format!("concurrent call {}: Err({})", j, e)));
+                        }
+                        Ran::Panic(m) => {
+                            verdict = Some((panic_sig(m), format!("concurrent call {}: {} [{}]", j, m, algo)));
+                        }
+                        Ran::Hang => {}
+                    }
+                }
+            }
             if ids != &ids0 {
                 ctx.count(&format!("{}:changed", algo));
             } else {
@@ -929,7 +1576,7 @@ fn run_case_m(ctx: &mut Ctx, c: &Case, label: Option<String>, reuse: bool) -> Op
             format!("panic {}", m)
         }
         Ran::Hang => {
-            verdict = Some((format!("hang@{}", algo), "watchdog (60 s)".into()));
+            verdict = Some((format!("hang@{}", algo), "watchdog (20 s up to 1000 elements, else 60 s)".into()));
             "hang".to_string()
         }
     };
@@ -1602,6 +2249,8 @@ fn all_valid_ids(n: usize, k: usize) -> Vec<Vec<usize>> {
 }
 
 pub fn generate(ctx: &mut Ctx) {
+    // (0) process-level state: a shuffled set of first calls, repeated at the end and in a child process
+    let history = history_begin(ctx);
     // (1) exhaustive small sub-spaces -------------------------------------------------------
     // KMeans: every valid 2- and 3-part partition of up to 5 (quick) / 6 points placed on a fixed
     // pattern with a duplicated position, two settings
@@ -1706,6 +2355,9 @@ pub fn generate(ctx: &mut Ctx) {
     }
     // (2c) LARGE / CORNER / REUSE stream: size-gated and corner-gated code paths ---------------
     large_stream(ctx);
+    // (2d) SPECIAL VALUES / PLUMBING / CONTEXT stream -----------------------------------------
+    special_stream(ctx);
+    history_end(ctx, &history);
     // (3) a small stream outside the contract (the models' abort paths; no oracle) -----------
     for _ in 0..ctx.budget(20, 200) {
         // KMeans on a partition with an unused id
@@ -1897,4 +2549,425 @@ fn large_stream(ctx: &mut Ctx) {
          with 1000..4096 parts, 2400 reuse cases"
             .into(),
     );
+}
+
+
+// ------------------------------------------------------------------ special values / plumbing / context
+
+fn set_threads(c: &mut Case, t: usize) {
+    match c {
+        Case::Vn { threads, .. }
+        | Case::Kl { threads, .. }
+        | Case::Fm { threads, .. }
+        | Case::ArcSwap { threads, .. }
+        | Case::KMeans { threads, .. } => *threads = t,
+    }
+}
+
+/// Small non-negative weights (below 2^24, exact in every weight type) with a good share of zeros.
+fn small_weights(ctx: &mut Ctx, n: usize, zeros: bool) -> Vec<i64> {
+    let mut w: Vec<i64> =
+        (0..n).map(|_| if zeros && ctx.rng.chance(2, 5) { 0 } else { ctx.rng.range(1, 40) }).collect();
+    if w.iter().all(|&x| x == 0) {
+        w[0] = 3;
+    }
+    w
+}
+
+/// A case of the given algorithm whose `f64` data is small and integer valued (weights below 2^24,
+/// zeros included; KMeans coordinates in -3..=3 so that zeros sit next to negative and positive
+/// values), in a single-worker pool for the algorithms that are deterministic only there.
+/// `algo`: 0 vnbest 1 vnfirst 2 kl 3 fm 4 arcswap 5 kmeans
+fn gen_small(ctx: &mut Ctx, algo: usize, f64w: bool, zeros: bool) -> Case {
+    let mut c = match algo {
+        0 => gen_vn(ctx, true),
+        1 => gen_vn(ctx, false),
+        2 => gen_kl(ctx),
+        3 => gen_fm(ctx),
+        4 => gen_arcswap(ctx, false),
+        _ => gen_kmeans(ctx, false),
+    };
+    let n = c.ids().len();
+    let w = small_weights(ctx, n, zeros);
+    match &mut c {
+        Case::Vn { ty, ws, .. } => {
+            *ty = if f64w { "f64".into() } else { "i64".into() };
+            *ws = w;
+        }
+        Case::Kl { .. } => {}
+        Case::Fm { f64w: f, ws, mi, .. } => {
+            *f = f64w;
+            *ws = w;
+            if *mi == Some(0.1) {
+                *mi = Some(1.0);
+            }
+        }
+        Case::ArcSwap { f64w: f, ws, threads, .. } => {
+            *f = f64w;
+            *ws = w;
+            *threads = 1;
+        }
+        Case::KMeans { ws, coords, threads, max_iter, .. } => {
+            *ws = w.iter().map(|x| x * 4).collect();
+            *threads = 1;
+            *max_iter = (*max_iter).min(5);
+            if zeros {
+                for x in coords.iter_mut() {
+                    *x = ctx.rng.range(-3, 3) * 16;
+                }
+            }
+        }
+    }
+    c
+}
+
+/// KMeans input on which all parallel sums are exact (see `kmeans_exact_sums`).
+fn gen_kmeans_exact(ctx: &mut Ctx) -> Case {
+    let mut c = gen_kmeans(ctx, false);
+    let n = *ctx.rng.pick(&[16usize, 32, 64]);
+    let k = 2 + ctx.rng.usize(7);
+    let (ids2, _) = gen_valid_ids(ctx, n, k);
+    if let Case::KMeans { dim, ids, coords, ws, erode, max_iter, .. } = &mut c {
+        *ids = ids2;
+        *coords = (0..n * *dim).map(|_| ctx.rng.range(-200, 200)).collect();
+        *ws = (0..n).map(|_| ctx.rng.range(1, 9) * 4).collect();
+        *erode = false;
+        *max_iter = (*max_iter).min(5);
+    }
+    c
+}
+
+fn special_stream(ctx: &mut Ctx) {
+    let q = ctx.quick();
+    // --- 1. signed zero: -0.0 weights (f64 Vn, FM, ArcSwap, KMeans) and KMeans coordinates ---
+    let mut r = 0u64;
+    for _ in 0..ctx.budget(8, 120) {
+        for algo in [0usize, 1, 3, 4, 5, 5] {
+            r += 1;
+            let c = gen_small(ctx, algo, true, true);
+            let seed = 2 * ctx.rng.below(1 << 30) + 1 + (r % 2); // odd / even count alternately
+            let coord = if algo == 5 && r % 3 != 0 { 1 } else { 0 };
+            run_special(ctx, &c, Tweak { negzero: seed, coord, ..Tweak::default() });
+        }
+    }
+    // --- 2. subnormal and extreme magnitudes ---
+    for i in 0..ctx.budget(6, 90) {
+        for algo in [0usize, 1, 3, 4, 5] {
+            let c = gen_small(ctx, algo, true, i % 2 == 0);
+            let total: i64 = match &c {
+                Case::Vn { ws, .. } | Case::Fm { ws, .. } | Case::ArcSwap { ws, .. } | Case::KMeans { ws, .. } => {
+                    ws.iter().sum()
+                }
+                _ => 1,
+            };
+            // the scaled total lies in [2^1021, 2^1023): finite, and so is every partial sum
+            let up = 1022 - (64 - (total.max(1) as u64).leading_zeros() as i32);
+            for scale in [-1073, -1030, up] {
+                run_special(ctx, &c, Tweak { scale, ..Tweak::default() });
+            }
+        }
+    }
+    for i in 0..ctx.budget(2, 30) {
+        for algo in [0usize, 1, 3, 4, 5] {
+            for preset in 1..=6u8 {
+                let c = gen_small(ctx, algo, true, i % 2 == 1);
+                run_special(ctx, &c, Tweak { preset, ..Tweak::default() });
+            }
+        }
+        for coord in [2u8, 3] {
+            for _ in 0..3 {
+                let c = gen_small(ctx, 5, true, false);
+                run_special(ctx, &c, Tweak { coord, ..Tweak::default() });
+            }
+        }
+    }
+    // --- 4. input type plumbing ---
+    for _ in 0..ctx.budget(2, 30) {
+        for plumb in [1u8, 2, 3, 4, 5, 6, 7, 8, 9, 10, 11, 12, 15] {
+            // VnBest: every adaptor; the float type against the f64 run, the integer types against i64
+            let mut c = gen_small(ctx, 0, plumb == 11, true);
+            if plumb == 12 {
+                let n = *ctx.rng.pick(&[4usize, 8]);
+                let k = 2 + ctx.rng.usize(2);
+                let (ids, _) = gen_valid_ids(ctx, n, k);
+                let ws = small_weights(ctx, n, false);
+                c = Case::Vn { best: true, ty: "i64".into(), threads: threads_of(ctx), ws, ids };
+            }
+            run_special(ctx, &c, Tweak { plumb, ..Tweak::default() });
+        }
+        for plumb in [8u8, 9, 10, 11, 12] {
+            let mut c = gen_small(ctx, 1, plumb == 11, true);
+            if plumb == 12 {
+                let (ids, _) = gen_valid_ids(ctx, 4, 2);
+                let ws = small_weights(ctx, 4, false);
+                c = Case::Vn { best: false, ty: "i64".into(), threads: threads_of(ctx), ws, ids };
+            }
+            run_special(ctx, &c, Tweak { plumb, ..Tweak::default() });
+        }
+        let c = gen_kl(ctx);
+        run_special(ctx, &c, Tweak { plumb: 2, ..Tweak::default() });
+        for algo in [3usize, 4] {
+            for plumb in [2u8, 2, 8, 9, 10, 11] {
+                let f = plumb == 11 || (plumb == 2 && ctx.rng.chance(1, 2));
+                let c = gen_small(ctx, algo, f, true);
+                run_special(ctx, &c, Tweak { plumb, ..Tweak::default() });
+            }
+        }
+        // 7. through the tools entry point (weights only: VnBest, VnFirst)
+        for algo in [0usize, 1] {
+            for f in [false, true] {
+                let c = gen_small(ctx, algo, f, true);
+                run_tools(ctx, &c);
+                let mut c = if algo == 0 { gen_vn(ctx, true) } else { gen_vn(ctx, false) };
+                if let Case::Vn { ty, .. } = &mut c {
+                    if ty == "u64" {
+                        *ty = "i64".into();
+                    }
+                }
+                run_tools(ctx, &c);
+            }
+        }
+    }
+    // --- 5. calling context ---
+    for i in 0..ctx.budget(1, 12) {
+        for algo in 0..6usize {
+            let gen = |ctx: &mut Ctx| {
+                if algo == 5 {
+                    gen_kmeans_exact(ctx)
+                } else {
+                    let f = ctx_bool(ctx);
+                    gen_small(ctx, algo, f, true)
+                }
+            };
+            // (a) global pool, (c) inside a rayon task of a pool of 1 and of 4 workers
+            let c = gen(ctx);
+            run_context(ctx, &c, Ctxk::Global);
+            for t in [1usize, 4] {
+                let mut c = gen(ctx);
+                set_threads(&mut c, t);
+                run_context(ctx, &c, Ctxk::InTask);
+            }
+            // (d) 8..32 calls at once in one pool of 4 / 16 workers
+            for (t, m) in [(4usize, 8usize), (16, 32), (4, 16 + (i % 2) * 16), (16, 8 + ctx.rng.usize(25))] {
+                if q && t == 4 && m > 8 {
+                    continue;
+                }
+                let mut c = gen(ctx);
+                set_threads(&mut c, t);
+                run_context(ctx, &c, Ctxk::Par(m));
+            }
+        }
+        // mixed: all six improvers, 2-D and 3-D, every weight type, at once in one pool
+        for t in [4usize, 16] {
+            let op = format!("mix {} {} {}", t, 12 + ctx.rng.usize(21), ctx.rng.below(1 << 40));
+            run_op(ctx, &op);
+        }
+    }
+}
+
+fn ctx_bool(ctx: &mut Ctx) -> bool {
+    ctx.rng.chance(1, 2)
+}
+
+/// `mix <threads> <count> <seed>`: `count` small cases of all six improvers (2-D and 3-D KMeans, every
+/// weight type), generated from `seed`, all called AT ONCE (`into_par_iter`) in one pool of `threads`
+/// workers, no hook observer installed.  Every result gets the oracle; those of the deterministic
+/// algorithms must equal a run alone in a pool of their own.
+fn run_mix(ctx: &mut Ctx, op: &str) {
+    use coupe::rayon::prelude::*;
+    let t: Vec<&str> = op.split_whitespace().collect();
+    let parsed = (|| {
+        if t.len() != 4 {
+            return None;
+        }
+        let threads: usize = t[1].parse().ok()?;
+        let count: usize = t[2].parse().ok()?;
+        let seed: u64 = t[3].parse().ok()?;
+        if !(1..=16).contains(&threads) || !(1..=64).contains(&count) {
+            return None;
+        }
+        Some((threads, count, seed))
+    })();
+    let Some((threads, count, seed)) = parsed else {
+        ctx.record(op.to_string(), "bad-op".into(), false);
+        return;
+    };
+    // the cases are a function of the op line: the generators draw from a private stream
+    let saved = std::mem::replace(&mut ctx.rng, Rng::new(seed ^ 0x5EED_C02));
+    let saved_hist = ctx.hist.clone();
+    let mut cases: Vec<Case> = (0..count)
+        .map(|i| match i % 7 {
+            0 => gen_vn(ctx, true),
+            1 => gen_vn(ctx, false),
+            2 => gen_kl(ctx),
+            3 => gen_fm(ctx),
+            4 => gen_arcswap(ctx, false),
+            _ => gen_kmeans_exact(ctx),
+        })
+        .collect();
+    ctx.rng.shuffle(&mut cases);
+    ctx.rng = saved;
+    ctx.hist = saved_hist;
+    ctx.count(&format!("context:mixed:pool{}", threads));
+    let cs = cases.clone();
+    let res: Caught<Vec<R>> = catch_timeout(60, move || {
+        let p = pool(threads);
+        p.install(move || cs.into_par_iter().map(|c| call_case(c, false, Tweak::default(), &|| {})).collect())
+    });
+    let mut verdict: Option<(String, String)> = None;
+    let out = match res {
+        Caught::Ok(rs) => {
+            let mut h = 0xcbf2_9ce4_8422_2325u64;
+            for (j, (c, r)) in cases.iter().zip(rs.iter()).enumerate() {
+                let algo = c.algo();
+                let ids0 = c.ids();
+                let max0 = ids0.iter().copied().max().unwrap_or(0);
+                match r {
+                    (Ok(_), ids) => {
+                        if single_run_deterministic(c) || kmeans_exact_sums(c) {
+                            h = (h ^ fnv(ids)).wrapping_mul(0x1000_0000_01b3);
+                        }
+                        if verdict.is_some() {
+                            continue;
+                        }
+                        if ids.len() != ids0.len() || ids.iter().any(|&i| i > max0) {
+                            verdict = Some((
+                                format!("id-out-of-range@{}", algo),
+                                format!("mixed concurrent call {} ({}): {} from {}", j, format_op(c), show(ids), show(ids0)),
+                            ));
+                        } else if matches!(c, Case::Vn { .. } | Case::Kl { .. }) || kmeans_exact_sums(c) {
+                            match run_impl(c, false).0 {
+                                Ran::Ok(seq, _) if &seq == ids => {}
+                                other => {
+                                    verdict = Some((
+                                        format!("context-dependent@{}", algo),
+                                        format!(
+                                            "mixed concurrent call {} ({}) gives {} but alone {}",
+                                            j,
+                                            format_op(c),
+                                            show(ids),
+                                            match other {
+                                                Ran::Ok(s, _) => show(&s),
+                                                _ => "no Ok".into(),
+                                            }
+                                        ),
+                                    ));
+                                }
+                            }
+                        }
+                    }
+                    (Err(e), _) => {
+                        if verdict.is_none() {
+                            verdict = Some((format!("unexpected-error@{}", algo), format!("mixed call {}: Err({})", j, e)));
+                        }
+                    }
+                }
+            }
+            format!("ok calls={} fnv={:016x}", cases.len(), h)
+        }
+        Caught::Panic(m) => {
+            let m = m.split_whitespace().collect::<Vec<_>>().join(" ");
+            verdict = Some((panic_sig(&m), format!("{} [mixed concurrent calls]", m)));
+            format!("panic {}", m)
+        }
+        Caught::Hang => {
+            verdict = Some(("hang@mixed".into(), "watchdog (60 s)".into()));
+            "hang".into()
+        }
+    };
+    let idx = ctx.record(op.to_string(), out, true);
+    if let Some((sig, what)) = verdict {
+        ctx.fail(idx, &sig, what);
+    }
+}
+
+/// (item 6) process-level state.  A shuffled list of small deterministic cases (2-D and 3-D KMeans,
+/// every weight type, every improver) is run FIRST in the process (after the corpus), in an order that
+/// depends on the seed; `history_end` repeats them in another order at the end of the run and once in
+/// a child process that has called nothing else, in reversed order: same input, same output.
+struct History {
+    cases: Vec<(Case, Option<Vec<usize>>)>,
+}
+
+fn history_begin(ctx: &mut Ctx) -> History {
+    let mut cs: Vec<Case> = vec![];
+    for algo in [0usize, 1, 2, 4, 5, 0, 1, 5, 5, 4] {
+        let f = ctx_bool(ctx);
+        let mut c = if algo == 5 { gen_kmeans_exact(ctx) } else { gen_small(ctx, algo, f, true) };
+        set_threads(&mut c, 1);
+        cs.push(c);
+    }
+    ctx.rng.shuffle(&mut cs);
+    let first = cs[0].algo();
+    ctx.count(&format!("context:history:first-call:{}", first));
+    let cases = cs
+        .into_iter()
+        .map(|c| {
+            let r = run_case(ctx, &c);
+            (c, r)
+        })
+        .collect();
+    History { cases }
+}
+
+fn history_end(ctx: &mut Ctx, h: &History) {
+    let mut order: Vec<usize> = (0..h.cases.len()).collect();
+    ctx.rng.shuffle(&mut order);
+    for &i in &order {
+        let (c, first) = &h.cases[i];
+        ctx.count("context:history:repeated-at-end");
+        let again = run_case(ctx, c);
+        if let (Some(a), Some(b)) = (first, &again) {
+            if a != b {
+                let idx = ctx.ops.len() - 1;
+                ctx.fail(
+                    idx,
+                    &format!("history-dependent@{}", c.algo()),
+                    format!("first in the process: {}, at the end of the run: {}", show(a), show(b)),
+                );
+            }
+        }
+    }
+    // a child process that runs only these ops, last one first
+    let Ok(exe) = std::env::current_exe() else { return };
+    let dir = std::env::temp_dir().join(format!("c02_history_{}_{}", std::process::id(), ctx.seed));
+    if std::fs::create_dir_all(&dir).is_err() {
+        return;
+    }
+    let ops: Vec<String> = h.cases.iter().rev().map(|(c, _)| format!("C02 {}", format_op(c))).collect();
+    let opsf = dir.join("ops.in");
+    if std::fs::write(&opsf, ops.join("\n") + "\n").is_err() {
+        return;
+    }
+    let st = std::process::Command::new(exe)
+        .args(["replay", "C02", "--ops"])
+        .arg(&opsf)
+        .arg("--out")
+        .arg(&dir)
+        .stdout(std::process::Stdio::null())
+        .stderr(std::process::Stdio::null())
+        .status();
+    let outs = std::fs::read_to_string(dir.join("impl.txt")).unwrap_or_default();
+    let _ = std::fs::remove_dir_all(&dir);
+    let lines: Vec<&str> = outs.lines().collect();
+    if st.map(|s| s.success()).unwrap_or(false) && lines.len() == h.cases.len() {
+        ctx.count("context:history:child-process-compared");
+        for ((c, first), line) in h.cases.iter().rev().zip(lines) {
+            if let Some(a) = first {
+                let want = format!("ok {}", join(a));
+                if want.trim_end() != line {
+                    // recorded against a fresh run of the op in this process
+                    run_case(ctx, c);
+                    let idx = ctx.ops.len() - 1;
+                    ctx.fail(
+                        idx,
+                        &format!("history-dependent@{}", c.algo()),
+                        format!("in this process: {}, in a fresh child process (reversed order): {}", want, line),
+                    );
+                }
+            }
+        }
+    } else {
+        ctx.count("context:history:child-process-unavailable");
+    }
 }
